@@ -75,6 +75,7 @@ BYTES_SUMMARIES = [
     (r"^(bytes::)?BytesMut::freeze$", h_bytes_freeze),
     (r"^(bytes::)?(BytesMut|Bytes)::split_off$", h_bytes_split_off),
     (r"^<(bytes::)?(BytesMut|Bytes) as (std::ops::)?Deref>::deref$", h_bytes_deref),
+    (r"^<(bytes::)?BytesMut as (std::ops::)?DerefMut>::deref_mut$", h_bytes_deref),
     (r"^<u64 as (std::convert::)?TryInto<usize>>::try_into$", lambda ex, st, fr, t, nf, a, d: [(S.ok(Sym(a[0].t, "usize"), d), None)]),
 ]
 
@@ -470,3 +471,124 @@ def rawrecords_tiles_file(crate, N=2):
 
     _check_paths(ex, res, outs, per_path)
     return P.finish(ex, res, ["two records, validation off", "record accepted with validation on", "rejected after a complete record"])
+
+
+# ---------------------------------------------------------------------------------------------
+# classification of a short file: every failed read on a parse path goes through into_bincode_if_unexpected_eof
+# ---------------------------------------------------------------------------------------------
+def _h_map_err_run(ex, st, frame, t, nf, args, dty):
+    """Result::map_err with the closure always executed on the Err path (this obligation follows the error value)."""
+    v, f = args[0], args[1]
+    good = S.split_enum(ex, st, v, 0)
+    outs = []
+    if ex.feasible(st, good):
+        s_ok = st.fork()
+        s_ok.pc.append(good)
+        ex.set_dest_and_goto(s_ok, t, S.ok(ex._get_field(s_ok, v, "Ok", 0, "?"), dty))
+        outs.append(s_ok)
+    if ex.feasible(st, z3.Not(good)):
+        st.pc.append(z3.Not(good))
+        payload = ex._get_field(st, v, "Err", 0, "?")
+        S.call_value(ex, st, frame, f, [payload], t.dest, t.targets.get("return"))
+
+        def w(ex_, st_, val, _dty=dty):
+            return S.err(val, _dty)
+        st.frames[-1].ret_wrap = w
+        outs.append(st)
+    return ("states", outs)
+
+
+def _h_classify(ex, st, frame, t, nf, args, dty):
+    e = Obj("error")
+    e.tag = ("classified", args[0])
+    st.events.append(("classify", nf, args, None))
+    return [(e, None)]
+
+
+def _error_chain(e, depth=0):
+    """objects an error value was derived from (through with_context / map_err wrappers)"""
+    out = []
+    while isinstance(e, Obj) and depth < 12:
+        out.append(e)
+        tg = getattr(e, "tag", None)
+        e = tg[1] if isinstance(tg, tuple) and len(tg) > 1 and tg[0] in ("mapped_error", "classified") else None
+        depth += 1
+    return out
+
+
+def header_read_classified(crate):
+    """C06: blob Header::from_file: the header is read with ONE read of exactly the serialized header size at offset 0 and
+    a failed read reaches the caller only through into_bincode_if_unexpected_eof, i.e. a blob file shorter than its header
+    (torn at creation) is reported as a deserialization error - which init treats as a corrupted blob - and never as a
+    plain I/O error (which makes init fail)."""
+    res = P.ObResult("header_read_classified")
+    fn = crate.find(r"blob::header::<impl at [^>]*>::from_file$|^header::<impl at src/blob/header\.rs[^>]*>::from_file$")
+    res.functions = ["blob::header::Header::from_file (async body) + its map_err closures"]
+    res.bounds = "one call, every outcome of the read; deserialize / validate opaque"
+    hsz = z3.BitVec("serialized_header_size", 64)
+    ex = P.mk_executor(crate, cap=2, loop_bound=4, inline=[],
+                       havoc=[r"^(bincode::)?deserialize$", r"^blob::header::Header::new$|^Header::new$", r"^Header::validate$"],
+                       extra_summaries=BYTES_SUMMARIES + [
+                           (r"^(std::result::)?Result(::<.*>)?::map_err$", _h_map_err_run),
+                           (r"into_bincode_if_unexpected_eof$", _h_classify),
+                           (r"^(bincode::)?serialized_size$", lambda ex_, st_, fr, t, nf, a, d: [(S.ok(Sym(hsz, "u64"), d), None)])])
+    st = State()
+    st.pc.append(z3.ULT(hsz, BV64(1 << 20)))
+    from .ob_blob import file_obj
+    f, size0, synced0 = file_obj(crate, st, "f")
+    fc = st.new_cell(f)
+
+    def hook(ex_, st_, name, fargs, out_ty, dty):
+        if "read_exact_at" in name or name.endswith("read_all"):
+            okv = z3.Bool(fresh_name("read_ok"))
+            r = Obj(out_ty)
+            r.discr = Sym(z3.If(okv, BV64(0), BV64(1)), "isize")
+            if "read_exact_at_allocate" in name:
+                r.fields[("Ok", 0)] = mk_buf(fargs[1].t, fargs[2].t, "read")
+            e = Obj("std::io::Error"); e.tag = ("raw_io", len(st_.events))
+            r.fields[("Err", 0)] = e
+            st_.events.append(("await", name, fargs, r))
+            return [(S.poll_ready(dty, r), None)]
+        return None
+    ex.await_hook = hook
+    path = Obj("&std::path::Path")
+    outs = P.drive_async(ex, st, fn, [Ref(fc, (), False, "&io::unix::sync::File"), path])
+    res.paths = len(outs)
+
+    def per_path(o, isok, payload):
+        reads = [e for e in o.events if e[0] == "await" and "read" in e[1]]
+        if reads:
+            r0 = reads[0]
+            if "read_exact_at_allocate" in r0[1]:
+                if not P.prove(ex, res, o, z3.And(r0[2][1].t == hsz, r0[2][2].t == BV64(0)), "the first read covers exactly the serialized header at offset 0"):
+                    return False
+        for e in reads:
+            r_failed = ex.get_discr(o, e[3]).t == BV64(1)
+            if not ex.feasible(o, r_failed):
+                continue
+            if not P.prove(ex, res, o, z3.Implies(r_failed, z3.Not(isok)), "a failed read fails the call"):
+                return False
+            errv = payload.fields.get(("Err", 0)) if isinstance(payload, Obj) else None
+            chain = _error_chain(errv)
+            raw = e[3].fields.get(("Err", 0))
+            cls = [c for c in chain if getattr(c, "tag", None) and c.tag[0] == "classified"]
+            def _src(c):
+                v = S.deref_val(ex, o, c.tag[1]) if isinstance(c.tag[1], Ref) else c.tag[1]
+                return getattr(v, "tag", None)
+            ok_chain = any(_src(c) == raw.tag for c in cls)
+            if not ok_chain:
+                import os
+                if os.environ.get("VERIF_DEBUG"):
+                    print("chain", [(c.ty, getattr(c, "tag", None)) for c in chain], "raw", raw, id(raw))
+                res.status = "violated"
+                res.detail = ("a failed read of the blob header (%s) is returned without into_bincode_if_unexpected_eof: a file "
+                              "cut inside its header is reported as an I/O error, not as a corrupted blob" % e[1].rsplit("::", 1)[-1])
+                return False
+            P.cover(ex, res, o, r_failed, "failed read classified")
+        if not reads:
+            res.status = "violated"; res.detail = "header produced without reading the file"; return False
+        P.cover(ex, res, o, isok, "header read")
+        return True
+    from .ob_blob import _check_paths
+    _check_paths(ex, res, outs, per_path)
+    return P.finish(ex, res, ["failed read classified", "header read"])
